@@ -133,7 +133,9 @@ example : (tableCfg Gen.sharedWrites).cache ≠ [] ∧ (tableCfg Gen.sharedWrite
 
 Full-strength statement (does NOT hold — `witness_shared_default` below):
     `outcome_clean : ∀ c : CaseM, outcome c = specOutcome`
-What is proved: the same under the exclusion `Excl c = false` (finding F-C15-1, class `SharedObjectDefault`). -/
+What is proved: the same under the exclusion `Excl c = false`, the disjunction of
+  `ExclSharedDefault` (finding F-C15-1, class `SharedObjectDefault`) and
+  `ExclTypeInfo`      (finding F-C15-2, class `TypeInfoIdentity`). -/
 
 /-- Outside the exclusion the model of EVERY case — any operations, any number of goroutines, any
     interleaving seed — shows no race, no verdict that differs from the solo run, no write to the document. -/
@@ -166,8 +168,33 @@ def witnessCase : CaseM :=
   { ops := [{ kind := .vreq, defaultsOn := true, sharedDefault := true }], g := 2, per := 1, sched := 1 }
 
 theorem witness_shared_default :
-    Excl witnessCase = true ∧ outcome witnessCase = ⟨true, false, true⟩ ∧ outcome witnessCase ≠ specOutcome := by
+    ExclSharedDefault witnessCase = true ∧ outcome witnessCase = ⟨true, false, true⟩ ∧
+    outcome witnessCase ≠ specOutcome := by
   decide
+
+/-- F-C15-2 witness: two goroutines generate the schema of a self-referential Go type for the first time.
+    Each publishes its own type descriptor unconditionally; the one that looks the type up again (cycle
+    detection compares descriptor pointers) may find the other's — no data race, but a result that differs
+    from the solo run. -/
+def witnessTypeInfo : CaseM :=
+  { ops := [{ kind := .gen, genType := 3, recursive := true }], g := 2, per := 1, sched := 9 }
+
+theorem witness_type_info :
+    ExclTypeInfo witnessTypeInfo = true ∧ outcome witnessTypeInfo = ⟨false, true, false⟩ ∧
+    outcome witnessTypeInfo ≠ specOutcome := by
+  decide
+
+/-- … and it is a matter of schedule: another interleaving of the same two calls is clean -/
+theorem witness_type_info_schedule_dependent :
+    outcome { witnessTypeInfo with sched := 10 } = specOutcome := by
+  decide
+
+/-- inside the classes the recorded upper bound covers what the witnesses show -/
+example : mayOutcome witnessCase = ⟨true, true, true⟩ ∧ mayOutcome witnessTypeInfo = ⟨false, true, false⟩ := by
+  decide
+
+/-- the exclusion is as small as the defect: a non-recursive type is outside it -/
+example : Excl { witnessTypeInfo with ops := [{ kind := .gen, genType := 3 }] } = false := by decide
 
 /-- the exclusion is as small as the defect: the same schema without default injection is clean -/
 example : Excl { witnessCase with ops := [{ kind := .vreq, defaultsOn := false, sharedDefault := true }] } = false := by
